@@ -107,7 +107,8 @@ def build_problem(rng, small=False):
         names = ['a']
     else:
         P, feats = wl.core_problem(rng, n_ring=2, tdep=(rng.random() < 0.5),
-                                   gap=wl.choose(rng, ['none', 'flow']),
+                                   gap=wl.choose(rng, ['none', 'flow',
+                                                       'flow', 'no_flow']),
                                    empty_frac=0.3, max_rings=3, length=0.3,
                                    vel_range=(0.5, 5.0), lf_frac=0.1,
                                    own_power_mesh=0.4,
@@ -193,6 +194,25 @@ def fields(r):
     return np.concatenate(out)
 
 
+def _scramble_heap(rng, n):
+    """Leave freed blocks of many sizes holding other numbers before each
+    construction: results must not depend on what uninitialised memory
+    happens to contain (np.empty) - the same construction has to give the
+    same result whatever was in the heap before."""
+    fill = [0.0, 1.0e3, -7.5e2][n % 3]
+    junk = []
+    for size in list(range(1, 400)) + [int(x) for x in
+                                      rng.integers(400, 20000, 200)]:
+        a = np.empty(size)
+        a.fill(fill + 0.001 * size)
+        junk.append(a)
+    for k in range(2, 40):
+        a = np.empty((k, 3 * k))
+        a.fill(fill - k)
+        junk.append(a)
+    del junk
+
+
 def run_history(case, res):
     rng = np.random.default_rng(case['seed'])
     P, feats = build_problem(rng)
@@ -216,6 +236,7 @@ def run_history(case, res):
         for n in range(3):
             env.log_records()
             stage = 'construct'
+            _scramble_heap(rng, n)
             try:
                 with drive.quiet():
                     r = dassh.Reactor(inp, write_output=True)
